@@ -286,7 +286,47 @@ def x_lca(report):
         f"def lcaYieldsEmpty : Bool := {'true' if yields_empty else 'false'}", ""])
 
 
+TO_PICKLIST_OLD = ("pl = picklist.SignaturePicklist('manifest') ; "
+                   "pl.pickset = {pl._get_value_for_manifest_row(row) for row in self.rows} ; return pl")
+TO_PICKLIST_NEW = ("pl = picklist.SignaturePicklist('manifest') ; pl.preprocess_fn = lambda x: x ; "
+                   "pl.pickset = {pl._get_value_for_manifest_row(row) for row in self.rows} ; return pl")
+
+
+def x_picklist(report):
+    """what a manifest-derived picklist compares: (identifier, md5[:8]) (the 'manifest' preprocess_fn) or the
+    rows' full (name, md5) (preprocess_fn replaced by the identity); CollectionManifest and
+    SqliteCollectionManifest must agree"""
+    res = []
+    for rel, cls, prefix in (("src/sourmash/manifest.py", "CollectionManifest", "picklist."),
+                             ("src/sourmash/index/sqlite_index.py", "SqliteCollectionManifest", "")):
+        tree = ast.parse(translate.read(rel))
+        body = _body_src(_fn(tree, "to_picklist", cls=cls))
+        old = squash(TO_PICKLIST_OLD.replace("picklist.", prefix))
+        new = squash(TO_PICKLIST_NEW.replace("picklist.", prefix))
+        if body == old:
+            res.append(False)
+        elif body == new:
+            res.append(True)
+        else:
+            raise Unrecognised(cls + ".to_picklist", "not one of the modelled shapes: " + body[:300])
+    if res[0] != res[1]:
+        raise Unrecognised("to_picklist", "CollectionManifest and SqliteCollectionManifest build different picklists")
+    ptree = ast.parse(translate.read("src/sourmash/picklist.py"))
+    comb = _body_src(_fn(ptree, "combine_ident_md5"))
+    if comb != squash("name, md5 = x ; ident = name.split(' ')[0] ; md5 = md5[:8] ; return (ident, md5)"):
+        raise Unrecognised("combine_ident_md5", "body changed: " + comb[:200])
+    gv = _body_src(_fn(ptree, "_get_value_for_manifest_row", cls="SignaturePicklist"))
+    for piece in ["if self.coltype in self.meta_coltypes: q = (row['name'], row['md5'])", "q = self.preprocess_fn(q)"]:
+        if squash(piece) not in gv:
+            raise Unrecognised("_get_value_for_manifest_row", "missing shape: " + piece)
+    report["outputs"]["manifestPicklistFullKey"] = res[0]
+    return "\n".join([
+        "", "/-- does `manifest.to_picklist()` compare the rows' full (name, md5) (true, since cff7217) or",
+        "    (identifier, md5[:8]) (false)? -/",
+        f"def manifestPicklistFullKey : Bool := {'true' if res[0] else 'false'}", ""])
+
+
 SERVES = ["C10"]
 
-EXTRACTORS = [("c10_lca", x_lca), ("c10_loaders", x_loaders), ("c10_manifest", x_manifest), ("c10_sqlite", x_sqlite),
+EXTRACTORS = [("c10_lca", x_lca), ("c10_picklist", x_picklist), ("c10_loaders", x_loaders), ("c10_manifest", x_manifest), ("c10_sqlite", x_sqlite),
               ("c10_zipstorage", x_zipstorage)]
